@@ -285,8 +285,8 @@ func expandC05(base Scenario, res *Result, tier string) []Scenario {
 	}
 	l := b.BaseEmitted
 	stride := 1
-	if tier == "quick" && l > 80 {
-		stride = (l + 79) / 80
+	if tier == "quick" && l > 48 {
+		stride = (l + 47) / 48
 	}
 	var out []Scenario
 	r := rand.New(rand.NewPCG(b.SchedSeed, 0xc05))
@@ -530,11 +530,11 @@ func init() {
 				"recovery clause checked only when the device is at a clean command prompt when the timed-out call returns",
 				"leg N runs the same enumeration over NETCONF sessions (Open and every RPC kind; scenario family C05N); in-channel authentication under stall is exercised by C10's stall sub-runs",
 			},
-			QuickRuns: 64,
+			QuickRuns: 160,
 			ThoroughS: 600,
 			Legs: []Leg{
-				{Name: "D", QuickRuns: 64, Share: 0.7},
-				{Name: "N", Prop: "C05N", QuickRuns: 24, Share: 0.3},
+				{Name: "D", QuickRuns: 160, Share: 0.7},
+				{Name: "N", Prop: "C05N", QuickRuns: 48, Share: 0.3},
 			},
 		},
 		Gen:    genC05,
